@@ -71,7 +71,10 @@ type vfGWCfg struct {
 	ValThrottle int               `json:"valthrottle,omitempty"`
 	BlacklistTC bool              `json:"blacklist_timecached,omitempty"`
 	Strategy    string            `json:"seen_strategy,omitempty"`
-	IDFn        string            `json:"idfn,omitempty"` // "" default, "content": hash of data (default fn), "topic-content": per-topic fn
+	IDFn        string            `json:"idfn,omitempty"`     // "" default, "content": hash of data (default fn), "topic-content": per-topic fn
+	DecayMs     int               `json:"decay_ms,omitempty"` // score decay interval (default: one hour, i.e. scores under harness control)
+	TestExt     bool              `json:"testext,omitempty"`
+	ScoreSeenS  int               `json:"score_seen_s,omitempty"`
 }
 
 type vfValCfg struct {
@@ -83,6 +86,7 @@ type vfValCfg struct {
 	PerMsg    map[string]string `json:"permsg,omitempty"`
 	TimeoutMs int               `json:"timeout_ms,omitempty"`
 	Throttle  int               `json:"throttle,omitempty"`
+	GateOnly  []string          `json:"gate_only,omitempty"` // park only these message labels (default: all)
 }
 
 type vfValInv struct {
@@ -289,7 +293,8 @@ func newVfGW(x *vfExec, cfg *vfGWCfg, msgs map[string]vfMsgSpec, extra ...Option
 					return g.app[p]
 				},
 				AppSpecificWeight:      1,
-				DecayInterval:          time.Hour, // keep scores under harness control
+				DecayInterval:          vfDecay(cfg.DecayMs), // default one hour: scores stay under harness control
+				SeenMsgTTL:             time.Duration(cfg.ScoreSeenS) * time.Second,
 				DecayToZero:            0.01,
 				RetainScore:            10 * time.Second,
 				BehaviourPenaltyWeight: -1, BehaviourPenaltyThreshold: 0, BehaviourPenaltyDecay: 0.9,
@@ -302,6 +307,16 @@ func newVfGW(x *vfExec, cfg *vfGWCfg, msgs map[string]vfMsgSpec, extra ...Option
 				}
 			}
 			opts = append(opts, WithPeerScore(sp, vfThresholds(cfg.Thresholds)))
+		}
+		if cfg.Gater {
+			gp := NewPeerGaterParams(0.33, 0.9, 0.9)
+			gp.DecayInterval = time.Second
+			gp.RetainStats = 5 * time.Second
+			gp.Quiet = 10 * time.Second
+			opts = append(opts, WithPeerGater(gp))
+		}
+		if cfg.TestExt {
+			opts = append(opts, WithTestExtension(TestExtensionConfig{}))
 		}
 		var direct []peer.AddrInfo
 		for _, pc := range cfg.Peers {
@@ -339,6 +354,13 @@ func newVfGW(x *vfExec, cfg *vfGWCfg, msgs map[string]vfMsgSpec, extra ...Option
 	return g
 }
 
+func vfDecay(ms int) time.Duration {
+	if ms <= 0 {
+		return time.Hour
+	}
+	return time.Duration(ms) * time.Millisecond
+}
+
 func vfContentID(m *pb.Message) string { return "cid:" + string(m.GetData()) }
 
 func vfValOpts(vc vfValCfg) []ValidatorOpt {
@@ -367,7 +389,16 @@ func (g *vfGW) validatorFn(vc vfValCfg) ValidatorEx {
 		if v, ok := vc.PerMsg[label]; ok {
 			verdict = v
 		}
-		if !vc.Gated {
+		gated := vc.Gated
+		if gated && len(vc.GateOnly) > 0 {
+			gated = false
+			for _, l := range vc.GateOnly {
+				if l == label {
+					gated = true
+				}
+			}
+		}
+		if !gated {
 			g.vmu.Unlock()
 			return vfVerdict(verdict)
 		}
@@ -686,6 +717,26 @@ func (g *vfGW) apply(evFull string) {
 	case "blimpl":
 		// the application adds the peer to the configured blacklist implementation directly
 		g.n.eval(func() { g.n.ps.blacklist.Add(g.pid(arg(1))) })
+	case "inclose":
+		if s := g.fake(arg(1)).in; s != nil {
+			s.Close()
+		}
+	case "inreset":
+		if s := g.fake(arg(1)).in; s != nil {
+			s.Reset()
+		}
+	case "inopen":
+		if err := g.fake(arg(1)).openInbound(g.n.h, g.fake(arg(1)).protos[0]); err != nil {
+			panic(err)
+		}
+	case "outreset":
+		if s := g.fake(arg(1)).out; s != nil {
+			s.Reset()
+		}
+	case "outclose":
+		if s := g.fake(arg(1)).out; s != nil {
+			s.Close()
+		}
 	case "vrel":
 		g.release(arg(1), arg(2), vfVerdict(arg(3)))
 	case "hold":
